@@ -73,6 +73,53 @@ def classify(scn, line):
     return "other"
 
 
+LGEN = ('CONSTANTS Vals = {%s} Deadlines = {1400, 1450, 1499, 1500, 2400} Nows = {1000, 2000, 3000} Depth = %d Pre <- %s\n'
+        'SPECIFICATION Spec\nCONSTRAINT Dump\nCHECK_DEADLOCK FALSE\n')
+
+
+def list_level(run, v):
+    """The bare expiry structure (expiration.NewList, what ack.Queue arms its time-outs in): TimeoutList.tla is model-checked as
+    coded against the bag it refines, with the three transcribed defects as negative controls; TLC-generated call sequences
+    are replayed on the real structure and every sweep's report is validated (TimeoutListTrace)."""
+    thorough = run.tier == "thorough"
+    run.model_check("MC_TimeoutList", "MC_TimeoutList.cfg")
+    run.negative_control("MC_TimeoutList", "MC_TimeoutList_swap-remove.cfg", "Sorted")
+    run.negative_control("MC_TimeoutList", "MC_TimeoutList_first-of-deadline.cfg", "Refines")
+    run.negative_control("MC_TimeoutList", "MC_TimeoutList_orphan-bucket.cfg", "Refines")
+    hs = []
+    for name, vals, depth, pre in (("p0", '"a", "b"', 3, "Pre0"), ("p3", '"a", "b", "c"', 5 if not thorough else 6, "Pre3"),
+                                   ("ps", '"a", "b", "c"', 5, "PreSame")):
+        sim = None
+        if name == "p3" and thorough:
+            sim = None
+        hs += vlib.gen_behaviours(run, "TimeoutListGen", "Gen_TimeoutList_%s.cfg" % name, LGEN % (vals, depth, pre),
+                                  simulate=("num=%d" % (20000 if thorough else 2500)) if name != "p0" else None,
+                                  depth=depth + 1 if name != "p0" else None)
+    hs = [h for h in hs if any(c["op"] == "ins" for c in h) and any(c["op"] == "exp" for c in h)]
+    uniq = {}
+    for h in hs:
+        uniq.setdefault(json.dumps(h, sort_keys=True), h + [{"op": "exp", "v": "", "d": 0, "now": 9000}])
+    hs = list(uniq.values())
+    spath = os.path.join(run.scratch, "list-scenarios.ndjson")
+    with open(spath, "w") as f:
+        for h in hs:
+            f.write(json.dumps(h) + "\n")
+    drv = run.gobuild("explist")
+    tpath = os.path.join(run.scratch, "explist.ndjson")
+    run.drive(drv, ["-scenarios", spath, "-out", tpath], timeout=1800)
+    nev, nscn = vlib.count_lines(tpath, '"op":"new"')
+    validated, rejected, tstates = vlib.validate_scenarios(run, "TimeoutListTrace", "TimeoutListTrace.cfg", tpath, timeout=3000)
+    for rj in rejected:
+        scn, line = rj["scenario"], rj["line"]
+        e = scn[line - 1]
+        sig = "list:panic" if e.get("panic") else "list:sweep-reports-wrong-entries" if e["op"] == "exp" else "list:" + e["op"]
+        calls = [dict((k, x[k]) for k in ("op", "v", "d", "now")) for x in scn[1:line]]
+        v.add(sig, "expiry structure: event %d is not a step of the bag of (value, deadline) pairs: %s ; history: %s"
+              % (line, json.dumps(e), json.dumps(calls)), {"kind": "list", "calls": calls, "trace": scn[:line]})
+    run.log("list level: %d call sequences (%d events), %d rejected" % (len(hs), nev, len(rejected)))
+    return len(hs), nev, validated, len(rejected), tstates
+
+
 def check(run):
     thorough = run.tier == "thorough"
     run.model_check("MC_AckQueue", "MC_AckQueue.cfg")
@@ -119,6 +166,9 @@ def check(run):
               {"kind": "ackq", "calls": [dict((k, x[k]) for k in ("op", "s", "id", "kind", "d", "ty", "now") if k in x)
                                          for x in scn[1:line]],
                "trace": scn[:line], "rejected_line": line})
+    ln, lev, lval, lrej, lts = list_level(run, v)
+    validated += lval
+    tstates += lts
     rc = v.finish()
     nontriv = sum(1 for s in scns if sum(1 for c in s if c["op"] == "insert") >= 1)
     vlib.write_evidence(run, {
@@ -130,8 +180,12 @@ def check(run):
                 "incl. id 0, QoS 0, same-second deadlines 5.0/5.3 vs 5.6, far deadline); each closed by a far-future sweep; "
                 "distinct = distinct call sequences, non-trivial = contains at least one registration",
         "events_validated": nev,
+        "list_level": {"call_sequences": ln, "events": lev, "rejections": lrej,
+                       "rule": "bare expiration.List: exhaustive depth 3 from empty over Insert/Delete of 2 values x deadlines "
+                               "{1.400,1.450,1.499,1.500,2.400}s and sweeps at {1,2,3}s; simulated walks after preloading three same-second items "
+                               "in every order of their sub-second deadlines, or three values on one / adjacent deadlines"},
         "trace_spec_states": tstates,
-        "rejections": len(rejected),
+        "rejections": len(rejected) + lrej,
         "exhaustive": True,
         "samples": [scns[0], scns[len(scns) // 3], scns[-1], {"trace_excerpt": vlib.head_events(tpath, 6)}],
     }, ["deadlines are honoured to the second: a sweep at `now` must fire entries with now >= deadline+1s, must not fire "
@@ -145,6 +199,20 @@ def check(run):
 
 def replay(run, path):
     rp = json.load(open(path))
+    if rp.get("kind") == "list":
+        spath = os.path.join(run.scratch, "scenarios.ndjson")
+        with open(spath, "w") as f:
+            f.write(json.dumps(rp["calls"]) + "\n")
+        drv = run.gobuild("explist")
+        tpath = os.path.join(run.scratch, "explist.ndjson")
+        run.drive(drv, ["-scenarios", spath, "-out", tpath])
+        ok, line, detail, _ = run.validate("TimeoutListTrace", "TimeoutListTrace.cfg", tpath)
+        if ok:
+            print("replay: history accepted (no violation)")
+            return 0
+        print("replay: rejected at event %d" % line)
+        print("VIOLATION property=C04 replay=%s" % path)
+        return 1
     spath = os.path.join(run.scratch, "scenarios.ndjson")
     with open(spath, "w") as f:
         f.write(json.dumps(rp["calls"]) + "\n")
